@@ -71,6 +71,11 @@ chk("C20", "exploration",
     "the direct writer is the oracle for bytes (itself judged by C01/C05)",
     "runtime monitoring: step-by-step comparison with an executable model and a twin direct writer over exhaustively enumerated op strings", "DESIGN.md §6 C20")
 
+chk("C16", "fault_enumeration",
+    "Runtime fault injection: the fault-free run of each seeded session (open, 1-5 puts, finalize) yields its list of write calls; EVERY write call is then failed once with accepted byte counts {0, mid, len-1} (quick) or every count (thorough third), with and without retrying the failed block, plus fault pairs (thorough), on 5 targets: StorageCar over a WriterAt memfile, over a plain io.Writer, deferred stream writer, blockstore.ReadWrite with Put and with PutMany (faults injected through the verif write hook, whose trace is checked for completeness against the file). Monitors: the API call during which the writer failed returns an error; Has(failed block) is false unless stored earlier; if all later calls succeed the finalized archive decodes strictly, holds exactly the acknowledged blocks, a matching index and a consistent header.",
+    "fault model = transient error with k < len bytes accepted on one write call; trusts refcar, lab.Model, the memfile and (up to the completeness check) the verif hook",
+    "runtime monitoring: enumerated write-fault injection with acked-set bookkeeping and reference decode of the final bytes", "DESIGN.md §6 C16")
+
 NOT_YET = {}
 
 def main():
